@@ -121,6 +121,7 @@ func (iter *matrixIterator) worker(ctx context.Context) {
 	var err error
 
 	for iter.chunks.Next() {
+		vpoint("mw.chunk")
 		chunk := iter.chunks.Chunk()
 
 		if iter.reflect {
@@ -142,10 +143,12 @@ func (iter *matrixIterator) worker(ctx context.Context) {
 			}
 		}
 
+		vpoint("mw.send")
 		select {
 		case iter.pipe <- documentWithMetadata{document: doc, metadata: chunk.GetMetadata()}:
 			continue
 		case <-ctx.Done():
+			vpoint("mw.aborted")
 			iter.catcher.Add(errors.New("operation aborted"))
 			return
 		}
